@@ -397,7 +397,7 @@ theorem c07_terms_pinned (cur : DBState) (t : Terms) (now : Int) (h : validatePr
         · simp [hg, hsd, bind, Except.bind, throw, throwThe, MonadExceptOf.throw] at h
       · simp [hg, bind, Except.bind, throw, throwThe, MonadExceptOf.throw] at h
 
-private def cxP (k : UInt8) (a : String) : Participant := { addr := a, key := [k], sig := [k], scheme := "pedersen-bls-chained" }
+private def cxP (k : UInt8) (a : String) : Participant := { addr := a, key := [k], sig := List.replicate 96 k, scheme := "pedersen-bls-chained" }
 private def cxCur : DBState :=
   { beaconID := "default", epoch := 1, state := .complete, threshold := 2, timeout := 0, schemeID := "pedersen-bls-chained",
     genesisTime := 1000, genesisSeed := [9], catchupSec := 1, periodSec := 30, leader := some (cxP 1 "a"),
